@@ -42,6 +42,11 @@ var Corpus = [][]string{
 // Directed: histories aimed at state that survives a restart of a stub on a live connection
 // (must pass).
 var Directed = [][]string{
+	// more toxics in one direction than there are toxic types, then new connections
+	{"proxy p1 echo", "toxic p1 up m1 latency {\"latency\":0}", "toxic p1 up m2 latency {\"latency\":0}", "toxic p1 up m3 latency {\"latency\":0}",
+		"toxic p1 up m4 latency {\"latency\":0}", "toxic p1 up m5 latency {\"latency\":0}", "toxic p1 up m6 latency {\"latency\":0}",
+		"toxic p1 up m7 latency {\"latency\":0}", "toxic p1 up m8 latency {\"latency\":0}", "toxic p1 up m9 latency {\"latency\":0}",
+		"toxic p1 up m10 latency {\"latency\":0}", "traffic p1 10 1", "echo p1"},
 	// limit_data lowered below what the connection has already carried, then more data
 	{"proxy p1 echo", "toxic p1 up t1 limit_data {\"bytes\":1000}", "hold p1 300", "retoxic p1 t1 {\"bytes\":5}", "more 50"},
 	{"proxy p1 echo", "toxic p1 down t1 limit_data {\"bytes\":1000}", "hold p1 300", "retoxic p1 t1 {\"bytes\":0}", "more 5000", "retoxic p1 t1 {\"bytes\":-1}", "more 1"},
